@@ -81,7 +81,8 @@ impl ISourceType for NominalType {
   fn is_the_same_type(&self, other: &Self) -> bool {
     let NominalType { module_reference: mod_ref1, id: id1, type_arguments: targs1, .. } = self;
     let NominalType { module_reference: mod_ref2, id: id2, type_arguments: targs2, .. } = other;
-    mod_ref1 == mod_ref2
+    self.is_class_statics == other.is_class_statics
+      && mod_ref1 == mod_ref2
       && id1 == id2
       && targs1.len() == targs2.len()
       && targs1.iter().zip(targs2.iter()).all(|(a, b)| a.is_the_same_type(b))
